@@ -859,46 +859,6 @@ pub fn run(args: &Args) -> ! {
     let notes = Mutex::new(BTreeMap::new());
     let all_diag = Cx { fx: &fx, notes: &notes, diag_levels: &ALL_LEVELS };
 
-    // ---- (a1) expressions
-    if want("a1") {
-        let mut progs: Vec<(String, u32)> = Vec::new();
-        let full = gen_exprs(expr_cost_full_atoms, &["a", "1", "\"s\"", "nil", "..."]);
-        let small = gen_exprs(expr_cost_small_atoms, &["a", "1"]);
-        let mut seen = std::collections::HashSet::new();
-        for set in [&full, &small] {
-            for lvl in set.iter() {
-                for e in lvl {
-                    for ctx in ["return @", "local x = @"] {
-                        let s = ctx.replace('@', &e.s);
-                        for t in [s.clone(), compact(&s)] {
-                            if seen.insert(t.clone()) {
-                                // a compacted text may lex differently: construction says nothing, the references decide
-                                let f = if t == s { e.feat } else { u32::MAX };
-                                progs.push((t, f));
-                            }
-                        }
-                    }
-                }
-            }
-        }
-        drop(seen);
-        let n = progs.len();
-        let (st, ok) = par_range(n as u64, args.threads, &dl, |i, st| {
-            let (t, f) = &progs[i as usize];
-            if i % 9973 == 1 {
-                st.sample(|| json!({"phase": "a1-expression", "text": t}));
-            }
-            if *f == u32::MAX {
-                judge(t, &ALL_LEVELS, |_| None, st, &all_diag);
-            } else {
-                judge(t, &ALL_LEVELS, bycon_of(*f), st, &all_diag);
-            }
-        });
-        all.merge(st);
-        exhaustive &= ok;
-        done.insert("a1_expression_programs", json!({"count": n, "completed": ok, "max_nodes_atoms_a_1": expr_cost_small_atoms, "max_nodes_5_atoms": expr_cost_full_atoms}));
-    }
-
     // ---- (a2) statement lists
     if want("a2") {
         // (text, features, diagnose at every level?)
@@ -974,7 +934,7 @@ pub fn run(args: &Args) -> ! {
                 if i % 50021 == 11 {
                     st.sample(|| json!({"phase": "b-numeral", "text": t}));
                 }
-                judge(&t, &ALL_LEVELS, |_| None, st, &all_diag);
+                judge_d(&t, &ALL_LEVELS, if k <= 5 { &ALL_LEVELS } else { &[L55] }, |_| None, st, &all_diag);
             });
             all.merge(st);
             if !ok {
@@ -1117,13 +1077,57 @@ pub fn run(args: &Args) -> ! {
         done.insert("c_token_mutations", json!({"base_programs": bases.len(), "mutants": n, "completed": ok, "base_max_statements": mut_budget, "alphabet": SIGMA_TOK.len()}));
     }
 
+    // ---- (a1) expressions (last: the largest phase, so a wall cap truncates only this one)
+    if want("a1") {
+        // (text, features, diagnose at every level?)
+        let mut progs: Vec<(String, u32, bool)> = Vec::new();
+        let full = gen_exprs(expr_cost_full_atoms, &["a", "1", "\"s\"", "nil", "..."]);
+        let small = gen_exprs(expr_cost_small_atoms, &["a", "1"]);
+        let mut seen = std::collections::HashSet::new();
+        for set in [&full, &small] {
+            for (cost, lvl) in set.iter().enumerate() {
+                // the largest expressions of the thorough tier get the diagnostic side at Lua 5.5 only
+                let all_levels = cost <= 2;
+                for e in lvl {
+                    for ctx in ["return @", "local x = @"] {
+                        let s = ctx.replace('@', &e.s);
+                        for t in [s.clone(), compact(&s)] {
+                            if seen.insert(t.clone()) {
+                                // a compacted text may lex differently: construction says nothing, the references decide
+                                let f = if t == s { e.feat } else { u32::MAX };
+                                progs.push((t, f, all_levels));
+                            }
+                        }
+                    }
+                }
+            }
+        }
+        drop(seen);
+        let n = progs.len();
+        let (st, ok) = par_range(n as u64, args.threads, &dl, |i, st| {
+            let (t, f, all_levels) = &progs[i as usize];
+            if i % 9973 == 1 {
+                st.sample(|| json!({"phase": "a1-expression", "text": t}));
+            }
+            let dl: &[usize] = if *all_levels { &ALL_LEVELS } else { &[L55] };
+            if *f == u32::MAX {
+                judge_d(t, &ALL_LEVELS, dl, |_| None, st, &all_diag);
+            } else {
+                judge_d(t, &ALL_LEVELS, dl, bycon_of(*f), st, &all_diag);
+            }
+        });
+        all.merge(st);
+        exhaustive &= ok;
+        done.insert("a1_expression_programs", json!({"count": n, "completed": ok, "max_nodes_atoms_a_1": expr_cost_small_atoms, "max_nodes_5_atoms": expr_cost_full_atoms, "note": "expressions with 3 nodes: diagnostic side at Lua 5.5 only, parser side at all 8 levels"}));
+    }
+
     finalise(fx, &mut all);
     let selfcheck = all.outcomes.get("undecided:SELFCHECK-generator-vs-recogniser").copied().unwrap_or(0);
     rep.set("recogniser_vs_generator_mismatches", json!(selfcheck));
     rep.set("phases", json!(done));
     rep.set("undecided_examples", json!(*notes.lock().unwrap()));
     rep.rule = format!(
-        "every (program, level) pair of: (a1) expression derivations ≤{expr_cost_small_atoms} nodes over atoms {{a,1}} and ≤{expr_cost_full_atoms} over {{a,1,\"s\",nil,...}} (4 unary, 21 binary operators incl. every ordered pair, calls/sugar, indexing, 7 table-constructor shapes, closures) in `return E`/`local x = E`, spaced and compact; (a2) statement lists ≤{stat_budget} statement nodes ({} flat, {} nesting, {} final forms; holes filled with `a` and `...`); (a3) {}×{} identifier placements; (b) numerals Σ^≤{num_len} (|Σ|=15) in `return <lit>`, escapes \"\\w\" |w|≤{esc_len} (|Σ|=13), long brackets open level 0-3 × content Σ^≤{lb_len} (|Σ|=5) × close level 0-3 × {{string, comment, call argument}}; (c) delete/swap/insert({} tokens) at every position of every valid base program ≤{mut_budget} statements (level 5.5). Each positive is judged at all 8 language levels (parser errors + real diagnose_file), each negative at Lua 5.5. Distinct by construction (texts de-duplicated per phase); non-trivial = text longer than 8 bytes. Oracle: two references (manual-grammar recogniser c03_ref / validity by construction, and luars 5.5) must agree, otherwise undecided.",
+        "every (program, level) pair of: (a1) expression derivations ≤{expr_cost_small_atoms} nodes over atoms {{a,1}} and ≤{expr_cost_full_atoms} over {{a,1,\"s\",nil,...}} (4 unary, 21 binary operators incl. every ordered pair, calls/sugar, indexing, 7 table-constructor shapes, closures) in `return E`/`local x = E`, spaced and compact; (a2) statement lists ≤{stat_budget} statement nodes ({} flat, {} nesting, {} final forms; holes filled with `a` and `...`); (a3) {}×{} identifier placements; (b) numerals Σ^≤{num_len} (|Σ|=15) in `return <lit>`, escapes \"\\w\" |w|≤{esc_len} (|Σ|=13), long brackets open level 0-3 × content Σ^≤{lb_len} (|Σ|=5) × close level 0-3 × {{string, comment, call argument}}; (c) delete/swap/insert({} tokens) at every position of every valid base program ≤{mut_budget} statements (level 5.5). Each positive is judged at all 8 language levels: parser errors always, the real diagnose_file at all 8 levels too except for the largest items of a phase (statement lists beyond the all-level bound, 3-node expressions, 6-character numerals), where it runs at Lua 5.5 only; each negative at Lua 5.5. Distinct by construction (texts de-duplicated per phase); non-trivial = text longer than 8 bytes. Oracle: two references (manual-grammar recogniser c03_ref / validity by construction, and luars 5.5) must agree, otherwise undecided.",
         FLAT.len(), NESTED.len(), LAST.len(), NAMES.len(), NAME_POS.len(), SIGMA_TOK.len()
     );
     rep.exhaustive = exhaustive && !dl.was_hit() && only.is_none();
